@@ -70,3 +70,30 @@ theorem tableEq_iff (t o : Table) (ht : t.Full) (ho : o.Full) :
     cases a <;> simp [slotWordsEq]
 
 end BiotiteModel.C10
+
+namespace BiotiteModel.C10
+
+/-- `KmerAlphabet.__eq__` as written decides structural equality (base alphabet, k, spacing) -/
+theorem kalphEq_iff (a b : KAlph) : kalphEq a b = true ↔ a = b := by
+  obtain ⟨n1, k1, s1⟩ := a
+  obtain ⟨n2, k2, s2⟩ := b
+  unfold kalphEq
+  simp only [KAlph.mk.injEq]
+  by_cases hn : n1 = n2
+  · by_cases hk : k1 = k2
+    · cases s1 <;> cases s2 <;> simp [hn, hk]
+    · simp [hn, hk]
+  · simp [hn]
+
+theorem matchSeqQ_ok (t : Table) (qa : QAlph) (seq : List Nat) (mask : Option (List Bool))
+    (l : List (Nat × Nat × Nat)) (h : matchSeqQ t qa seq mask = .ok l) :
+    qa.extendedBy t.alph.n = true ∧ matchSeq t seq mask = .ok l := by
+  unfold matchSeqQ at h
+  split at h
+  · cases h
+  · split at h
+    · cases h
+    · rename_i hx
+      exact ⟨by simpa using hx, h⟩
+
+end BiotiteModel.C10
